@@ -233,9 +233,10 @@ func exprString(e ast.Expr) string {
 var curPkg *pkgInfo
 
 // rewriteBlocking replaces blocking synchronisation statements by scheduler-aware forms:
-//   X.Lock()   -> verifBlockUntil(site, func() bool { return X.TryLock() })
-//   X.RLock()  -> verifBlockUntil(site, func() bool { return X.TryRLock() })
-//   O.Do(f)    -> verifOnceDo(&O, f)            (O declared as sync.Once)
+//
+//	X.Lock()   -> verifBlockUntil(site, func() bool { return X.TryLock() })
+//	X.RLock()  -> verifBlockUntil(site, func() bool { return X.TryRLock() })
+//	O.Do(f)    -> verifOnceDo(&O, f)            (O declared as sync.Once)
 func rewriteBlocking(site string, s ast.Stmt) ast.Stmt {
 	es, ok := s.(*ast.ExprStmt)
 	if !ok {
